@@ -87,7 +87,7 @@ def expectedFirings (asStr : V → Option (List Char)) (ops : List (Op V R)) (i 
 def declared : RetSig → Option (List Char)
   | .noCheck => none
   | .pyNone => some []
-  | .str r => if r = C08Client.noCheckReturn.toList then none else some r
+  | .str r => if isSentinel r then none else some r
 
 /-- A reply as it can come off the wire: the signature is absent or empty exactly when there are no
 values. -/
